@@ -108,7 +108,8 @@ def agree(cx, got, v, path, node=None, tname=None):
     if v is None:
         cx.claim(f'{path}: absent', got is None)
         return
-    if v is True:                      # True / Unit: no information
+    if v is True:                      # True / Unit: a field-less value; whatever stands for it must not read as a negative
+        cx.claim(f'{path}: field-less value (True / Unit) is not reported as False', got is not False)
         return
     if isinstance(v, T.Bool_):
         cx.claim(f'{path}: Bool', beq(w, got, v.b))
